@@ -51,7 +51,7 @@ func (impl Implementation) Dgetc2(n int, a []float64, lda int, ipiv, jpiv []int)
 	case len(ipiv) != n:
 		panic(badLenIpiv)
 	case len(jpiv) != n:
-		panic(badLenJpvt)
+		panic(badLenJpiv)
 	}
 
 	const (
